@@ -154,6 +154,17 @@ pub fn dispatch(f: &[&str]) -> String {
             drop(m);
             format!("ok\t{}\t{}", n, c.formatted().len())
         }
+        "c19.json" => {
+            // any JSON text offered to the deserializers of the value types (string form, object form, lists, envelopes): an error value, never a panic
+            let Some(x) = s(f[2]) else { return "invalid-utf8".into() };
+            let ok = match f[1] {
+                "address" => serde_json::from_str::<lettre::Address>(&x).is_ok(),
+                "mailbox" => serde_json::from_str::<lettre::message::Mailbox>(&x).is_ok(),
+                "mailboxes" => serde_json::from_str::<lettre::message::Mailboxes>(&x).is_ok(),
+                _ => serde_json::from_str::<lettre::address::Envelope>(&x).is_ok(),
+            };
+            format!("ok\t{}", ok as u8)
+        }
         "c19.now" => { let _ = SystemTime::now(); "ok".into() }
         _ => "UNKNOWN-FN".into(),
     }
